@@ -3,7 +3,7 @@ import json
 import os
 import re
 
-from . import common, ip_checks
+from . import common, ip_checks, jun_checks
 from .common import LEAN, VERIF, Infra
 
 TRUSTED_BASE = [
@@ -103,8 +103,21 @@ def match_finding(pid, case, findings):
     return None
 
 
-FINDING_MATCHERS = {}
-FINDING_REPLAYS = {}
+def _m_c18_empty(case):
+    return case.get("signature") == "empty-plaintext-short-salt"
+
+
+def _r_c18_empty():
+    from netconan.utils import juniper_secrets as J
+    c = J.juniper_nonrandom_encrypt("", "i")
+    try:
+        return J.juniper_decrypt(c) != ""
+    except ValueError:
+        return True
+
+
+FINDING_MATCHERS = {"C18-empty-plaintext-short-salt": _m_c18_empty}
+FINDING_REPLAYS = {"C18-empty-plaintext-short-salt": _r_c18_empty}
 
 
 def setup():
@@ -135,11 +148,20 @@ def ip_prop(mod, scopes, extra_mods=()):
             "rule": IP_RULE, "assumptions": IP_ASSUME}
 
 
+JUN_RULE = ("exhaustive: every code point 0..255 at each of the 7 table positions; all 65 salt characters on boundary code points and the "
+            "empty plaintext; random plaintexts over 0..255 with arbitrary salt strings (None, empty, outside the alphabet, Unicode); a "
+            "malformed stream derived from valid strings (truncations, foreign characters, trailing newline, wrong magic, inserted "
+            "characters); every result checked with an independent decoder written after Crypt::Juniper; distinct_nontrivial counts "
+            "distinct (position, last code point, salt character) and malformed-shape keys")
+
 PROPS = {
     "C01": ip_prop("C01", [ip_checks.core_scope, ip_checks.file_scope, ip_checks.big_history]),
     "C02": ip_prop("C02", [ip_checks.core_scope, ip_checks.file_scope, ip_checks.cli_scope, ip_checks.big_history, ip_checks.process_history_scope]),
     "C03": ip_prop("C03", [ip_checks.core_scope, ip_checks.file_scope, ip_checks.big_history, ip_checks.process_history_scope]),
-    "C04": ip_prop("C04", [ip_checks.core_scope, ip_checks.file_scope, ip_checks.cli_scope, ip_checks.big_history]),
+    "C04": ip_prop("C04", [ip_checks.core_scope, ip_checks.file_scope, ip_checks.cli_scope, ip_checks.big_history], ["Netconan.Props.C04Data"]),
     "C05": ip_prop("C05", [ip_checks.mask_scope, ip_checks.core_scope, ip_checks.file_scope, ip_checks.cli_scope]),
+    "C18": {"modules": ["Netconan.Props.C18"], "scopes": [jun_checks.scope],
+            "checker_cmd": "cd lean && lake build Netconan.Props.C18 && lake env lean <#print axioms audit>", "rule": JUN_RULE,
+            "assumptions": ["FAMILY/ENCODING/EXTRA/_fixedc tables are regenerated from the live module on every run; the functions are modelled by hand and tied by correspondence"]},
     "C17": ip_prop("C17", [ip_checks.core_scope, ip_checks.cli_scope, ip_checks.big_history]),
 }
